@@ -411,3 +411,246 @@ pub fn a14r(seed: u64, iters: u64) -> Assumption {
     a.note_info(&wide_bad);
     a
 }
+
+// ------------------------------------------------------------------------------------------------ 22, 23, 24
+/// spec/42_lemmas_misc.rs axiom_ddiv_accuracy: -b <= 2 * (ddiv(of_int(a), of_int(b)) * b - a * D) <= b
+pub fn a22(seed: u64, iters: u64) -> Assumption {
+    let mut a = Assumption::new("A-DEC-DIV-22", "axiom_ddiv_accuracy: integers 0<=a<=b, b>=1 (b < 2^64 and b < 2^90): |2*(q_r*b - a*10^28)| <= b, i.e. the quotient is within 0.5e-28 of a/b");
+    let g = Gen::new();
+    let mut rng = Rng::new(seed, 22);
+    let d28 = D();
+    let mut n64 = 0u64;
+    let mut n90 = 0u64;
+    let mut at_bound = Info::new("quotients exactly 0.5e-28 away from a/b (allowed, <=)");
+    let mut beyond = Info::new("beyond the audited range (2^90 <= b < 2^96): accuracy violations");
+    let mut beyond_cases = 0u64;
+    let mut one = |a: &mut Assumption, x: u128, b: u128, audited: bool| {
+        let key = x.saturating_add(b);
+        let r = catch_unwind(|| dec(x, false, 0).checked_div(dec(b, false, 0)));
+        let ok_and_err = match r {
+            Ok(Some(r)) => {
+                let err2 = q(&r).mul(&Big::from_u128(b)).sub(&Big::from_u128(x).mul(&d28)).abs().mul_u64(2);
+                let bb = Big::from_u128(b);
+                if err2 == bb {
+                    at_bound.hit(key, || format!("{} / {} = {}", x, b, show(&r)));
+                }
+                (err2 <= bb, format!("{} / {} = {}", x, b, show(&r)))
+            }
+            Ok(None) => (false, format!("{} / {} = None", x, b)),
+            Err(_) => (false, format!("{} / {} panicked", x, b)),
+        };
+        if audited {
+            a.check_k(ok_and_err.0, key, || format!("{} is more than 0.5e-28 away from the exact quotient", ok_and_err.1));
+        } else {
+            beyond_cases += 1;
+            if !ok_and_err.0 {
+                beyond.hit(key, || ok_and_err.1.clone());
+            }
+        }
+    };
+    for b in 1..=64u128 {
+        for x in 0..=b {
+            one(&mut a, x, b, true);
+            n64 += 1;
+        }
+    }
+    for &b in &[(1u128 << 64) - 1, 1 << 64, (1 << 64) + 1, 3u128.pow(40), 7u128.pow(22), 10u128.pow(19), 10u128.pow(27), (1 << 89) + 1, (1 << 90) - 1, (1u128 << 90) - 59, 6 * 10u128.pow(26) + 7] {
+        for x in [0u128, 1, 2, 3, b / 7, b / 3, b / 3 + 1, b / 2 - 1, b / 2, b / 2 + 1, 2 * (b / 3), b - 3, b - 2, b - 1, b] {
+            one(&mut a, x, b, true);
+            n90 += 1;
+        }
+    }
+    for i in 0..iters * 2 {
+        let (b, wide) = if i % 2 == 0 { (gen_b64(&g, &mut rng) as u128, false) } else { (rng.log_uniform(90).max(1), true) };
+        let x = match rng.below(6) {
+            0 => b - (rng.below(4) as u128).min(b),
+            1 => rng.below(4) as u128 % (b + 1),
+            2 => rng.log_uniform(90) % (b + 1),
+            _ => rng.next_u128() % (b + 1),
+        };
+        one(&mut a, x.min(b), b, true);
+        if wide {
+            n90 += 1
+        } else {
+            n64 += 1
+        }
+    }
+    for _ in 0..iters / 2 {
+        let b = (1u128 << 90) + rng.next_u128() % ((1u128 << 96) - (1u128 << 90));
+        let x = rng.next_u128() % (b + 1);
+        one(&mut a, x, b, false);
+    }
+    a.note(format!("cases with b < 2^64: {} ; with b < 2^90 (edge values and log-uniform): {}", n64, n90));
+    a.note_info(&at_bound);
+    a.note(format!("beyond-range informational cases: {}", beyond_cases));
+    a.note_info(&beyond);
+    a
+}
+
+/// spec/42_lemmas_misc.rs axiom_rmul_accuracy: -n <= rmul(r, of_int(n)) - r * n <= n   for 0 <= r <= D, n >= 0
+pub fn a23(seed: u64, iters: u64) -> Assumption {
+    let mut a = Assumption::new("A-DEC-DIV-23", "axiom_rmul_accuracy: r = a/b in [0,1] (integers, b < 2^64), integer n >= 0 (n < 2^64 and n < 2^96): y = r*n is Some and |q_y - q_r*n| <= n");
+    let g = Gen::new();
+    let mut rng = Rng::new(seed, 23);
+    let mut n64 = 0u64;
+    let mut nbig = 0u64;
+    let mut worst = 0f64; // largest |err| / n
+    let mut worst_desc = String::new();
+    let mut exact = 0u64;
+    let mut one = |a: &mut Assumption, x: u64, b: u64, n: u128| {
+        let key = x as u128 + b as u128 + (n >> 8);
+        let ratio = match div_u(x as u128, b as u128) {
+            Ok(Some(r)) => r,
+            _ => {
+                a.check_k(false, key, || format!("{} / {} did not return a quotient", x, b));
+                return;
+            }
+        };
+        let nd = dec(n, false, 0);
+        let (y1, y2) = (ratio.checked_mul(nd), nd.checked_mul(ratio));
+        match (y1, y2) {
+            (Some(y1), Some(y2)) => {
+                let want = q(&ratio).mul(&Big::from_u128(n));
+                let err = q(&y1).sub(&want).abs();
+                let err2 = q(&y2).sub(&want).abs();
+                let nb = Big::from_u128(n);
+                a.check_k(err <= nb && err2 <= nb, key, || format!("({}/{} = {}) * {} = {} : |q_y - q_r*n| = {} > n", x, b, show(&ratio), n, show(&y1), err));
+                if err.is_zero() {
+                    exact += 1;
+                } else if n > 0 {
+                    let ratio_err = err.to_u128().map(|e| e as f64).unwrap_or(f64::INFINITY) / n as f64;
+                    if ratio_err > worst {
+                        worst = ratio_err;
+                        worst_desc = format!("({}/{}) * {} = {}", x, b, n, show(&y1));
+                    }
+                }
+            }
+            _ => a.check_k(false, key, || format!("({}/{}) * {} = {:?} / {:?} (Some expected: 0 <= product <= n)", x, b, n, y1.map(|v| show(&v)), y2.map(|v| show(&v)))),
+        }
+    };
+    for b in 1..=24u64 {
+        for x in 0..=b {
+            for n in [0u128, 1, 2, 3, 7, 9, 10, 12, 14, 15, 99, 1000, 999_999_999_999, u64::MAX as u128, (1u128 << 96) - 1, 10u128.pow(28), 3 * 10u128.pow(27) + 1] {
+                one(&mut a, x, b, n);
+                if n <= u64::MAX as u128 { n64 += 1 } else { nbig += 1 }
+            }
+        }
+    }
+    for i in 0..iters * 2 {
+        let b = gen_b64(&g, &mut rng);
+        let x = gen_a_le(&mut rng, b);
+        let n = if i % 2 == 0 { g.n64(&mut rng) as u128 } else { g.m96(&mut rng) };
+        one(&mut a, x, b, n);
+        if n <= u64::MAX as u128 { n64 += 1 } else { nbig += 1 }
+    }
+    a.note(format!("cases with n < 2^64: {} ; with 2^64 <= n < 2^96: {} ; exact products: {}", n64, nbig, exact));
+    a.note(format!("largest observed |q_y - q_r*n| / n: {:.4} (claimed bound 1) at {}", worst, worst_desc));
+    a
+}
+
+/// conclusion of lemma_C09_nearest (spec/42_lemmas_misc.rs): inside 3*f*q < 10^28 the pipeline result is the nearest
+/// integer to f*n/q; at an exact half-unit tie it is that value or one less
+pub fn a24(seed: u64, iters: u64) -> Assumption {
+    let mut a = Assumption::new("A-DEC-DIV-24", "lemma_C09_nearest: if 3*f*q < 10^28 then pipeline(f,n,q) == floor((2fn+q)/(2q)), or that value - 1 allowed only at an exact tie ((2fn+q) % (2q) == 0)");
+    let g = Gen::new();
+    let mut rng = Rng::new(seed, 24);
+    let limit = D();
+    let mut inside = 0u64;
+    let mut ties = 0u64;
+    let mut tie_low = Info::new("ties that give the lower value (allowed)");
+    let mut tie_high = 0u64;
+    let mut outside = 0u64;
+    let mut out_nontie_diff = Info::new("OUTSIDE the premise (3fq >= 10^28): non-tie cases where the pipeline differs from nearest rounding (finding K1; see k1_example.json)");
+    let mut out_tie_low = 0u64;
+    let mut one = |a: &mut Assumption, f: u64, n: u64, qd: u64| {
+        let key = f as u128 + n as u128 + qd as u128;
+        let prem = Big::from_u64(f).mul(&Big::from_u64(qd)).mul_u64(3) < limit;
+        let t = Big::from_u64(f).mul(&Big::from_u64(n)).mul_u64(2).add(&Big::from_u64(qd));
+        let (half, _) = t.div_floor_u64(qd);
+        let (k, even) = half.div_floor_u64(2); // floor(t / 2q)
+        let tie = even && t.sub(&k.mul_u64(2).mul(&Big::from_u64(qd))).is_zero();
+        let want = k.to_u128().unwrap();
+        let got = prorata_real(f, n, qd).ok().and_then(|p| if p.v1 == p.v2 { p.v1 } else { None });
+        let desc = || format!("fee={} num={} den={}: pipeline {:?}, nearest {}, tie={}", f, n, qd, got, want, tie);
+        if prem {
+            inside += 1;
+            if tie {
+                ties += 1;
+                let ok = got == Some(want) || (want > 0 && got == Some(want - 1));
+                a.check_k(ok, key, desc);
+                if got == Some(want) {
+                    tie_high += 1;
+                } else if ok {
+                    tie_low.hit(key, desc);
+                }
+            } else {
+                a.check_k(got == Some(want), key, desc);
+            }
+        } else {
+            outside += 1;
+            a.cases += 1;
+            if tie {
+                if want > 0 && got == Some(want - 1) {
+                    out_tie_low += 1;
+                }
+            } else if got != Some(want) {
+                out_nontie_diff.hit(f as u128 * qd as u128, desc);
+            }
+        }
+    };
+    for qd in 1..=24u64 {
+        for n in 0..=qd {
+            for f in 0..=30u64 {
+                one(&mut a, f, n, qd);
+            }
+        }
+    }
+    for i in 0..iters * 2 {
+        // f*q just below the premise's limit most of the time: bits(f)+bits(q) <= 91
+        let total = if i % 3 == 0 { rng.range(2, 91) as u32 } else { rng.range(80, 91) as u32 };
+        let bq = rng.range(1, (total - 1).min(63) as u64) as u32;
+        let bf = (total - bq).min(63);
+        let qd = (rng.log_uniform(bq) as u64).max(1);
+        let f = rng.log_uniform(bf) as u64;
+        match i % 4 {
+            0 => {
+                // nearest non-ties
+                let qo = (qd | 1).max(3);
+                let two_f = ((2u128 * f as u128) % qo as u128) as u64;
+                if let Some(inv) = inv_mod(two_f, qo) {
+                    one(&mut a, f, inv.min(qo), qo);
+                    one(&mut a, f, qo - inv.min(qo), qo);
+                }
+            }
+            1 => {
+                // exact ties: q = 2*c1*c2, n = c1*t (t odd), f = c2*odd
+                let c1 = 1 + rng.log_uniform(bq.saturating_sub(2).min(30) / 2 + 1) as u64;
+                let c2 = 1 + rng.log_uniform(bq.saturating_sub(2).min(30) / 2 + 1) as u64;
+                let q2 = 2 * c1 * c2;
+                let t = (rng.next_u64() % (2 * c2)) | 1;
+                let odd = rng.log_uniform(bf.saturating_sub(32).max(1).min(30)) as u64 | 1;
+                one(&mut a, c2.saturating_mul(odd), c1 * t, q2);
+            }
+            _ => one(&mut a, f, gen_a_le(&mut rng, qd), qd),
+        }
+    }
+    // outside the premise: informational
+    for i in 0..iters {
+        let qd = (rng.log_uniform(63) as u64).max(1 << 40) | 1;
+        let f = (g.n64(&mut rng)).max(1 << 40);
+        if i % 2 == 0 {
+            let two_f = ((2u128 * f as u128) % qd as u128) as u64;
+            if let Some(inv) = inv_mod(two_f, qd) {
+                one(&mut a, f, inv.min(qd), qd);
+            }
+        } else {
+            one(&mut a, f, gen_a_le(&mut rng, qd), qd);
+        }
+    }
+    one(&mut a, 10345233564266, 422874438330509, 513839360649213); // k1_example.json
+    a.note(format!("cases inside the premise: {} ; exact ties among them: {} (upper value {} times, lower value {} times)", inside, ties, tie_high, tie_low.count));
+    a.note_info(&tie_low);
+    a.note(format!("cases outside the premise (informational): {} ; ties giving the lower value there: {}", outside, out_tie_low));
+    a.note_info(&out_nontie_diff);
+    a
+}
